@@ -1451,3 +1451,115 @@ theorem findEndIndex_lexOK_not_enough_counterexample :
   decide
 
 end Ytk.C11
+
+/-! ## `propImpl.resolvePlaceholder` / `propImpl.resolve` / `Resolver.Resolve`, as translated (bytes;
+    `resolve` is self-recursive: the translation carries a recursion fuel, its loop the fuel
+    `len(value)+1`), against the token-level model.
+
+    The lookup function is a parameter `String → Option String` of the translation (a pure total
+    function: the Go callee is assumed neither to panic nor to have effects).  It corresponds to the
+    model's table under the lexer: `LookupRel`. -/
+namespace Ytk.C11
+open Ytk.Generated Ytk.Resolver
+
+/-- the byte-level lookup function and the token-level table describe the same map -/
+def LookupRel (d : Delims) (lk : String → Option String) (tbl : Table) : Prop :=
+  ∀ k : String, lk k = (tbl.get (lex d k.toList)).map (fun v => String.ofList (unlex d v))
+
+/-- props.propImpl.resolvePlaceholder, as translated, on BYTES, for every placeholder text: no
+    panic, and the result is the rendering of what the model's `resolvePlaceholder` returns on the
+    lexed text (`nil` ↔ `none`): direct hit, else key before the first separator, else the default
+    behind it.  Domain: `Delims.BytesOK`; lookup function and table related by `LookupRel`. -/
+theorem resolvePlaceholder_generated_eq_model (d : Delims) (hd : d.BytesOK) (lk : String → Option String)
+    (tbl : Table) (hlk : LookupRel d lk tbl) (ph : String) :
+    Funcs.resolvePlaceholder (String.ofList d.sep) (d.sep.length : Int) lk ph
+      = .ok ((Resolver.resolvePlaceholder tbl (lex d ph.toList)).map (fun v => String.ofList (unlex d v))) := by
+  unfold Funcs.resolvePlaceholder Resolver.resolvePlaceholder
+  rw [hlk ph]
+  cases hg : tbl.get (lex d ph.toList) with
+  | some v => simp
+  | none =>
+    simp only [Option.map_none, Option.isNone_none, if_true]
+    rw [stringsIndex_sep hd ph]
+    cases hs : findSep (lex d ph.toList) with
+    | none => simp
+    | some p =>
+      obtain ⟨k, dflt⟩ := p
+      have hT := findSep_some hs
+      have hph : ph.toList = unlex d k ++ (d.sep ++ unlex d dflt) := by
+        have := unlex_lex' d ph.toList
+        rw [hT, DivR.unlex_append] at this
+        rw [← this]; simp [unlex, unlexTok]
+      have hk : lex d (unlex d k) = k := lex_unlex_prefix hd.1.1 _ _ (Nat.le_refl _) k (.sep :: dflt) hT
+      have hne : ((((unlex d k).length : Nat) : Int) != -1) = true := by simp
+      have hlen : ph.toList.length = (unlex d k).length + (d.sep.length + (unlex d dflt).length) := by
+        rw [hph]; simp
+      have s1 := Go.slice_nat ph 0 (unlex d k).length (Nat.zero_le _) (by omega)
+      have s2 := Go.slice_nat ph ((unlex d k).length + d.sep.length) ph.toList.length (by omega) (Nat.le_refl _)
+      rw [← Go.len_eq] at s2
+      have e1 : (ph.toList.drop 0).take ((unlex d k).length - 0) = unlex d k := by
+        rw [hph]; simp
+      have e2 : (ph.toList.drop ((unlex d k).length + d.sep.length)).take
+          (ph.toList.length - ((unlex d k).length + d.sep.length)) = unlex d dflt := by
+        rw [List.take_of_length_le (by simp)]
+        rw [hph, ← List.drop_drop, List.drop_left, List.drop_left]
+      rw [e1] at s1
+      rw [e2] at s2
+      simp only [Int.natCast_zero] at s1
+      have e3 : (((unlex d k).length : Nat) : Int) + (d.sep.length : Int)
+          = (((unlex d k).length + d.sep.length : Nat) : Int) := by omega
+      have hlk' := hlk (String.ofList (unlex d k))
+      rw [String.toList_ofList, hk] at hlk'
+      simp only [hne, if_true, s1, e3, s2, Go.Res.ok_bind, hlk']
+      cases tbl.get k <;> simp
+
+/-- the recursion of the translated `resolve` needs no loop iteration and no recursive call on a
+    text without a prefix token: PLACEHOLDER-FREE texts are returned verbatim, as the model returns
+    their tokens (whose rendering is the text), for every recursion fuel ≥ 1, every lookup function,
+    every stack.
+
+    Full statement (NOT proved; `resolve_generated_eq_model`): for every text `s`, every fuel `n` at
+    which the model has ended, `Funcs.resolve … n s lk seen` is the rendering of
+    `Resolver.resolve (relex d) n tbl (lex d s) (seen.map lex)` — `.ok t ↦ .ok (some (unlex t))`,
+    `.cycle _ ↦ .panic` — under `BytesOK`, `LookupRel` and table values that re-lex to themselves.
+    (Equal fuel gives only this direction: the model spends one unit of fuel per loop continuation,
+    the translation only per recursive call.) -/
+theorem resolve_generated_eq_model_plain_partial (d : Delims) (hd : d.BytesOK) (lk : String → Option String)
+    (n : Nat) (norm : Toks → Toks) (tbl : Table) (s : String) (seen : List String) (seenT : List Toks)
+    (hplain : findPre (lex d s.toList) = none) :
+    Funcs.resolve (String.ofList d.pre) (d.pre.length : Int) (String.ofList d.suf) (d.suf.length : Int)
+        (String.ofList d.sep) (d.sep.length : Int) (n + 1) s lk seen = .ok (some s)
+    ∧ Resolver.resolve norm (n + 1) tbl (lex d s.toList) seenT = .ok (lex d s.toList)
+    ∧ String.ofList (unlex d (lex d s.toList)) = s := by
+  refine ⟨?_, ?_, ?_⟩
+  · unfold Funcs.resolve
+    simp [stringsIndex_pre hd s, hplain]
+  · simp [Resolver.resolve, hplain]
+  · rw [unlex_lex']; exact String.ofList_toList
+
+/-- `Resolver.Resolve`, as translated: placeholder-free texts are returned unchanged -/
+theorem Resolve_generated_eq_model_plain_partial (d : Delims) (hd : d.BytesOK) (lk : String → Option String)
+    (n : Nat) (s : String) (hplain : findPre (lex d s.toList) = none) :
+    Funcs.Resolve (n + 1) lk (String.ofList d.pre) (d.pre.length : Int) (String.ofList d.suf) (d.suf.length : Int)
+        (String.ofList d.sep) (d.sep.length : Int) s = .ok s := by
+  unfold Funcs.Resolve
+  rw [(resolve_generated_eq_model_plain_partial d hd lk n id [] s [] [] hplain).1]
+  simp [Go.deref]
+
+/-- the translated resolver RUNS (kernel evaluation of the regenerated definitions, default
+    delimiters): substitution, default, unresolved placeholder kept, nested key, circular reference
+    = panic, unterminated placeholder kept, recursion fuel exhausted -/
+theorem nonvacuous_resolve_generated :
+    let lk : String → Option String := fun k =>
+      if k = "x" then some "1" else if k = "y" then some "${x}" else if k = "k1" then some "K"
+      else if k = "c" then some "${e}" else if k = "e" then some "${c}" else none
+    let R := fun (fuel : Nat) (s : String) => Funcs.Resolve fuel lk "${" 2 "}" 1 ":" 1 s
+    DivR.dd.BytesOK ∧
+    R 5 "a${x}b${q:dflt}${nope}" = .ok "a1bdflt${nope}" ∧
+    R 5 "${k${x}}-${y}" = .ok "K-1" ∧
+    R 9 "a${c}" = .panic ∧
+    R 5 "a${x" = .ok "a${x" ∧
+    R 1 "${y}" = .fuel := by
+  decide
+
+end Ytk.C11
